@@ -45,24 +45,36 @@ from ..lib.common import Ctx, MachineryError, jdump, repo_python_path
 MANIFEST = {
     "engine": "E13-ExcFlow",
     "technique": "Lean 4 proof over regenerated exception-routing tables (least-fixed-point certificate checked by the kernel, lifted to call "
-                 "paths of any depth by induction) + structured fuzz oracle of the five parse methods + dynamic stage attribution",
+                 "paths of any depth by induction) + static raise sets of the leaf functions computed from the source and proved to be designed/"
+                 "routed + structured fuzz oracle of the five parse methods with a systematic sweep of extreme values + dynamic stage attribution",
     "text": "Theorems in lean/Jap/Props/C03.lean prove, from the handler tuples / handler actions / error() / get_loader_exceptions / exit statuses / "
             "issubclass table regenerated from /repo on every run, that every failure a region of the anchored code is designed to raise reaches the "
             "caller of parse_args/parse_object/parse_string/parse_env/parse_path as ArgumentError (exit_on_error false) or exit status 2 (true), on "
             "every call path of any depth, except for three tagged origins (internal dataclass parser, class-help parser, get_defaults raising ArgumentError itself) that are "
             "open known findings with refutation witnesses; and that every run of the pipeline model under the hypothesis 'stages raise only what "
-            "they are designed to' ends in ok | ArgumentError | exit 0 | exit 2. The hypothesis and the property itself are attacked on the real "
-            "code by a structured fuzz of all five methods with stage-boundary attribution of every exception.",
-    "level_note": "Trusted: Lean kernel; axioms propext/Quot.sound/Classical.choice only; the extractor (ast + live classes); the hand-written "
-                  "region/call structure of Core/ExcFlow.lean (validated dynamically, not proved); the fuzz harness. Outside: undesigned (implicit) "
-                  "exceptions by construction (they are what the search hunts), user callbacks beyond links, ActionParser/ActionJsonnet/"
-                  "ActionJsonSchema, error_handler, JSONARGPARSE_DEBUG, KeyboardInterrupt/MemoryError, inputs outside the declared parameter types.",
+            "they are designed to' ends in ok | ArgumentError | exit 0 | exit 2. For 22 leaf functions (validation functions of the restricted types, "
+            "deserializers of the registered types, loaders, import_object, ActionYesNo._boolean_type) the hypothesis is no longer assumed: "
+            "C03_static_raises proves that every class in the static over-approximation of what can escape them (explicit raises, failure tables of "
+            "int()/float()/timedelta()/Decimal()/json.loads.., minus the function's own handlers; regenerated from the source with the guards in front "
+            "of each origin) is a designed failure of the leaf's region, or is excused by a guard present in the source / an open finding / a stated "
+            "assumption; C03_static_routed composes it with the routing theorem. The hypothesis for the other stages and the property itself are "
+            "attacked on the real code by a structured fuzz of all five methods (8 parser shapes; a systematic sweep of non-finite / extreme numbers, "
+            "odd strings, NUL, deep nesting against every typed option through object, document, file, --cfg, argv and environment channels) with "
+            "stage-boundary attribution of every exception.",
+    "level_note": "Trusted: Lean kernel; axioms propext/Quot.sound/Classical.choice only; the extractors (ast + live classes), in particular the "
+                  "failure tables of builtins/library callables in harness/extractors/excflow_raises.py (attacked by a self-test on every run and by "
+                  "'observed class of a leaf is in its static set' in the fuzz) and the semantic claim behind each guard excuse of Core/ExcFlowRaises.lean "
+                  "(its presence in front of the origin is checked, its meaning is not); the hand-written region/call structure of Core/ExcFlow.lean "
+                  "(validated dynamically, not proved); the fuzz harness. Outside: undesigned (implicit) exceptions of the non-leaf stages by "
+                  "construction (they are what the search hunts), Path.__init__/get_content and adapt_typehints itself as leaves, user callbacks "
+                  "beyond links, ActionParser/ActionJsonnet/ActionJsonSchema, error_handler, JSONARGPARSE_DEBUG, KeyboardInterrupt/MemoryError, "
+                  "inputs outside the declared parameter types.",
 }
 
 CASE_TIMEOUT = 4.0  # seconds, hard guard per parse call (termination is part of the property)
 METHODS = ["parse_args", "parse_object", "parse_string", "parse_env", "parse_path"]
 LEAN_METHOD = {"parse_args": "parseArgs", "parse_object": "parseObject", "parse_string": "parseString", "parse_env": "parseEnv", "parse_path": "parsePath"}
-SHAPES = ["leaves", "groups", "subcommands", "subclass", "cfgfile", "links", "defcfg"]
+SHAPES = ["leaves", "groups", "subcommands", "subclass", "cfgfile", "links", "defcfg", "typed"]
 
 
 class CaseTimeout(BaseException):
@@ -275,6 +287,47 @@ def build_parser(shape, eoe, mode, variant, files_dir):
         p.add_argument("--g.a", type=int, default=1)
         p.add_argument("--c", type=Optional[M.Base])
         p.add_class_arguments(M.DC, "dc")
+    elif shape == "typed":
+        # restricted and registered types (their validation / deserializer functions are leaves of the pipeline), bare and inside
+        # containers: a failure of the leaf inside List/Dict/Tuple has no Union handler above it
+        import datetime
+        import decimal
+        import pathlib
+        import uuid
+
+        from jsonargparse.typing import (ClosedUnitInterval, Email, NonNegativeFloat, NonNegativeInt, NotEmptyStr, OpenUnitInterval,
+                                         PositiveFloat, restricted_number_type, restricted_string_type)
+
+        p.add_argument("--cfg", action=ActionConfigFile)
+        p.add_argument("--pos", type=PositiveInt)
+        p.add_argument("--nn", type=NonNegativeInt, default=0)
+        p.add_argument("--lnn", type=List[NonNegativeInt])
+        p.add_argument("--dpos", type=Dict[str, PositiveInt])
+        p.add_argument("--tpos", type=Tuple[PositiveInt, NonNegativeInt])
+        p.add_argument("--opos", type=Optional[PositiveInt])
+        p.add_argument("--rint", type=restricted_number_type("C03Band", int, [(">=", -5), ("<", 100)]))
+        p.add_argument("--rodd", type=restricted_number_type("C03Out", int, [("<", -5), (">", 5)], join="or"))
+        p.add_argument("--pf", type=PositiveFloat)
+        p.add_argument("--lpf", type=List[NonNegativeFloat])
+        p.add_argument("--unit", type=ClosedUnitInterval)
+        p.add_argument("--ounit", type=OpenUnitInterval)
+        p.add_argument("--em", type=Email)
+        p.add_argument("--nes", type=List[NotEmptyStr])
+        p.add_argument("--hex", type=restricted_string_type("C03Hex", r"^[0-9a-f]+$"))
+        p.add_argument("--td", type=datetime.timedelta)
+        p.add_argument("--ltd", type=List[datetime.timedelta])
+        p.add_argument("--cx", type=complex)
+        p.add_argument("--dec", type=decimal.Decimal)
+        p.add_argument("--ldec", type=List[decimal.Decimal])
+        p.add_argument("--rng", type=range)
+        p.add_argument("--uu", type=uuid.UUID)
+        p.add_argument("--by", type=bytes)
+        p.add_argument("--ba", type=bytearray)
+        p.add_argument("--pp", type=pathlib.Path)
+        p.add_argument("--fl", type=float)
+        p.add_argument("--lfl", type=List[float])
+        p.add_argument("--iv", type=int)
+        p.add_argument("--din", type=Dict[int, int])
     elif shape == "links":
         p.add_argument("--cfg", action=ActionConfigFile)
         p.add_argument("--a", type=int, default=1)
@@ -302,6 +355,8 @@ OPTS = {
     "cfgfile": ["cfg", "i", "s", "li", "la", "d", "g.a", "c", "c.a", "dc", "dc.x"],
     "defcfg": ["cfg", "i", "s", "li", "la", "d", "g.a", "c", "c.a", "dc", "dc.x"],
     "links": ["cfg", "a", "b", "q", "x.a", "x.name", "y.c", "y.color", "sub", "sub.a", "sub.init_args.a"],
+    "typed": ["cfg", "pos", "nn", "lnn", "dpos", "dpos.k", "tpos", "opos", "rint", "rodd", "pf", "lpf", "unit", "ounit", "em", "nes", "hex", "td", "ltd", "cx",
+              "dec", "ldec", "rng", "uu", "by", "ba", "pp", "fl", "lfl", "iv", "din"],
 }
 
 
@@ -582,6 +637,7 @@ VALID_ARGV = {
     "cfgfile": [["--i=2"], ["--cfg", "i: 3"], []],
     "defcfg": [["--i=2"], []],
     "links": [["--a=2"], ["--x.a=3"], []],
+    "typed": [["--pos=2"], ["--lnn=[0, 1]", "--td=1:2:3"], ["--dec=1.5", "--rng=range(3)"], []],
 }
 
 
@@ -638,6 +694,134 @@ def gen_env(rng, shape, m):
     return env
 
 
+# ================================================================= typed edge probes (systematic sweep)
+# every (numeric-ish / restricted / registered option) x (extreme or non-finite value) x (bare | in a list | in a mapping), sent once as a
+# typed OBJECT (parse_object / a YAML or JSON document through parse_string, parse_path, --cfg: the value reaches the type as a Python
+# float / int / ... ) and once as a STRING (argv `--opt=text` or an environment variable)
+PROBE_OPTS = {
+    "typed": ["pos", "nn", "lnn", "dpos", "tpos", "opos", "rint", "rodd", "pf", "lpf", "unit", "ounit", "em", "nes", "hex", "td", "ltd", "cx", "dec", "ldec",
+              "rng", "uu", "by", "ba", "pp", "fl", "lfl", "iv", "din"],
+    "leaves": ["i", "f", "li", "d", "oi", "u", "t", "pos", "any", "plain", "lit", "b", "e", "s", "la", "da", "ch", "yn", "pth"],
+    "groups": ["g.a", "g.l", "dc.x", "odc", "ldc", "mdc", "dc2.n", "dc2.d.x", "cls.a", "ap.v", "ap.w.z"],
+    "cfgfile": ["i", "li", "d", "g.a", "dc.x", "c"],
+    "links": ["a", "b", "q", "x.a", "y.c", "y.color", "sub"],
+    "subclass": ["uc", "fn", "ty", "cal", "c", "mc"],
+}
+EDGE_NUM = ["@INF", "@NINF", "@NAN", "@NEGZERO", "@HUGEINTV", "@NEGHUGEINTV", "@BIGINT", "@BIGFLOAT", "@TINYFLOAT", "@I64", "@NI64", 1.0, 2.5, -1, 0, True, None]
+EDGE_STR = ["", " ", "1e999", "-1e999", ".inf", "-.inf", "+.inf", ".nan", "inf", "nan", "Infinity", "-0", "-0.0", "9" * 400, "-" + "9" * 400, "0" * 400 + "1",
+            "9" * 400 + ":0:0", "9999999999 days, 0:0:0", "range(1, 2, 0)", "range(" + "9" * 400 + ")", "1_0", "0x10", "1e5", "1e400", "٣", "a\x00b", "\x00",
+            "é", "\U0001f600", "a b", "\x85", "﻿1", "‮1", "abc", "x@y.z", "1:2:3", "QUJD", "12345678-1234-5678-1234-567812345678", "1+2j",
+            "@@NEST"]
+PROBE_WRAPS = ["bare", "list", "map"]
+
+
+def _nest(name, val):
+    parts = name.split(".")
+    out = val
+    for q in reversed(parts):
+        out = {q: out}
+    return out
+
+
+def _wrap(v, wrap):
+    return v if wrap == "bare" else [v] if wrap == "list" else {"k": v}
+
+
+_SENT = {"@INF": float("inf"), "@NINF": float("-inf"), "@NAN": float("nan"), "@NEGZERO": -0.0, "@HUGEINTV": 777000777001, "@NEGHUGEINTV": -777000777001,
+         "@BIGINT": 10 ** 400, "@BIGFLOAT": 1.7976931348623157e308, "@TINYFLOAT": 5e-324, "@I64": 2 ** 63, "@NI64": -(2 ** 63) - 1}
+
+
+def _unmark(v):
+    """markers -> the Python values they stand for (huge ints: a sentinel that the text form turns into @HUGEINT)"""
+    if isinstance(v, str):
+        if v == "@@NEST":
+            return "[" * 60 + "]" * 60
+        return _SENT.get(v, v)
+    if isinstance(v, list):
+        return [_unmark(x) for x in v]
+    if isinstance(v, dict):
+        return {k: _unmark(x) for k, x in v.items()}
+    return v
+
+
+def probe_text(obj, mode, flow):
+    """the document / value text a user would write for `obj`"""
+    import yaml
+
+    o = _unmark(obj)
+    if mode == "json":
+        t = json.dumps(o)  # Infinity / NaN literals: json.loads takes them
+    else:
+        try:
+            t = yaml.safe_dump(o, default_flow_style=flow, allow_unicode=True, width=100000)
+        except Exception:  # noqa: BLE001 - characters the emitter refuses
+            t = json.dumps(o)
+        if t.endswith("\n...\n"):
+            t = t[:-5]
+        t = t.rstrip("\n") if flow else t
+    return t.replace("777000777001", "@HUGEINT")
+
+
+def gen_probes(rng, thorough, boost=1):
+    combos = []
+    for shape, opts in PROBE_OPTS.items():
+        for opt in opts:
+            for v in EDGE_NUM + EDGE_STR:
+                for wrap in PROBE_WRAPS:
+                    combos.append((shape, opt, v, wrap))
+    both = ("typed", "string")
+    if thorough:
+        plan = [(c, both) for c in combos]
+    else:
+        # always: the restricted / registered types against every non-finite / extreme number, bare (both channels) and in a list
+        # (typed channel); the rest sampled
+        core_vals = ["@INF", "@NINF", "@NAN", "@NEGZERO", "@HUGEINTV", "@BIGINT", "@BIGFLOAT", "@I64", 2.5, True]
+        plan, rest = [], []
+        for c in combos:
+            if c[0] == "typed" and c[3] != "map" and any(c[2] is v or (type(c[2]) is type(v) and c[2] == v) for v in core_vals):
+                plan.append((c, both if c[3] == "bare" else ("typed",)))
+            else:
+                rest.append(c)
+        rng.shuffle(rest)
+        plan += [(c, both) for c in rest[: 450 * boost]]
+    cases = []
+    for (shape, opt, v, wrap), channels in plan:
+        mode = rng.choice(["yaml", "yaml", "json"])
+        w = _wrap(v, wrap)
+        has_cfg = shape != "leaves"
+        base = {"shape": shape, "mode": mode, "variant": {"required": False}, "stdin": "empty", "files": {}, "probe": [opt, jdump(v)[:24], wrap]}
+        # typed channel
+        ch = rng.choice(["object", "string", "path"] + (["cfgarg"] if has_cfg else []))
+        c = dict(base, eoe=rng.random() < 0.5, channel=ch)
+        if ch == "object":
+            c.update(method="parse_object", input=_nest(opt, w))
+        else:
+            text = probe_text(_nest(opt, w), mode, flow=rng.random() < 0.5)
+            if ch == "string":
+                c.update(method="parse_string", input=text)
+            elif ch == "path":
+                c.update(method="parse_path", input="@F:in.cfg", files={"in.cfg": text})
+            else:
+                c.update(method="parse_args", input=["--cfg", text])
+        if "typed" in channels:
+            cases.append(c)
+        if "string" not in channels:
+            continue
+        # string channel
+        if "\x00" in (v if isinstance(v, str) else ""):
+            sch = "argv"
+        else:
+            sch = rng.choice(["argv", "argv", "env"])
+        text = _unmark(v) if (isinstance(v, str) and wrap == "bare" and v not in _SENT) else probe_text(w, mode, flow=True)
+        c2 = dict(base, eoe=rng.random() < 0.5, channel=sch)
+        if sch == "argv":
+            c2.update(method="parse_args", input=["--%s=%s" % (opt, text)] if rng.random() < 0.6 else ["--" + opt, text])
+        else:
+            c2.update(method="parse_env", input={opt: text})
+        cases.append(c2)
+    return cases
+
+
 # ================================================================= running one case on the real code
 HUGEINT = "1" * 5000
 
@@ -682,6 +866,27 @@ def resolve_obj(v, files_dir):
             return float("nan")
         if v == "@INF":
             return float("inf")
+        if v == "@@NEST":
+            x = []
+            for _ in range(60):
+                x = [x]
+            return x
+        if v == "@NINF":
+            return float("-inf")
+        if v == "@NEGZERO":
+            return -0.0
+        if v == "@NEGHUGEINTV":
+            return -(int(HUGEINT[:4000]) * 10 ** 1200)
+        if v == "@BIGINT":
+            return 10 ** 400  # beyond the float range, below the int->str digit limit
+        if v == "@BIGFLOAT":
+            return 1.7976931348623157e308
+        if v == "@TINYFLOAT":
+            return 5e-324
+        if v == "@I64":
+            return 2 ** 63
+        if v == "@NI64":
+            return -(2 ** 63) - 1
         if v == "@DEEP":
             x = []
             for _ in range(40):
@@ -738,6 +943,16 @@ def frames_of(tb):
         if os.sep + "harness" + os.sep in fn:
             continue
         out.append((fs.name, os.path.basename(fn), (fs.line or "").strip()))
+    return out
+
+
+def chain_of(ex):
+    """[(class name, innermost jsonargparse/stdlib function, file)] of the exception and of everything it was converted from"""
+    out, cur, hops = [], ex, 0
+    while cur is not None and hops < 12:
+        fr = frames_of(cur.__traceback__)
+        out.append([type(cur).__name__, [c.__name__ for c in type(cur).__mro__], fr[-1][0] if fr else "?", fr[-1][1] if fr else "?"])
+        cur, hops = (cur.__cause__ or (None if cur.__suppress_context__ else cur.__context__)), hops + 1
     return out
 
 
@@ -840,11 +1055,13 @@ def run_case_raw(case):
         except SystemExit as ex:
             signal.setitimer(signal.ITIMER_REAL, 0)
             res["outcome"] = "exit:%r" % (ex.code,)
+            res["chain"] = chain_of(ex)
             res["frames"] = frames_of(ex.__traceback__)
             res["root"] = tracer.root_of(ex)
         except ArgumentError as ex:
             signal.setitimer(signal.ITIMER_REAL, 0)
             res["outcome"] = "argerr"
+            res["chain"] = chain_of(ex)
             res["msg"] = str(ex)[:300]
             res["frames"] = frames_of(ex.__traceback__)
             res["root"] = tracer.root_of(ex)
@@ -858,6 +1075,7 @@ def run_case_raw(case):
         except Exception as ex:  # noqa: BLE001 - the class that escapes is the observation
             signal.setitimer(signal.ITIMER_REAL, 0)
             res["outcome"] = "raise:" + type(ex).__name__
+            res["chain"] = chain_of(ex)
             res["mro"] = [c.__name__ for c in type(ex).__mro__]
             res["msg"] = str(ex)[:300]
             res["frames"] = frames_of(ex.__traceback__)
@@ -1365,31 +1583,37 @@ def run(ctx: Ctx):
     repo_python_path()
     if os.environ.get("JSONARGPARSE_DEBUG"):
         raise MachineryError("JSONARGPARSE_DEBUG is set: error() raises instead of exiting")
-    ctx.rule = ("one case = (parser shape of 7, exit_on_error, loader mode, stdin state, default config file or none, env on/off) x one call of "
+    ctx.rule = ("one case = (parser shape of 8, exit_on_error, loader mode, stdin state, default config file or none, env on/off) x one call of "
                 "parse_args(argv) | parse_object(dict) | parse_string(text) | parse_env(mapping) | parse_path(path) with an input drawn from the grammar of "
                 "harness/props/c03.py (known / unknown / dotted / empty-segment / '+' / sub-key option names x ~150 well- and ill-formed values); evaluation = "
                 "one call judged by the property; non-trivial = the call FAILED (ArgumentError, SystemExit or escape), distinct by (method, shape, "
                 "exit_on_error, mode, raising stage, exception class, normalised message)")
     ctx.assumptions = [
         "inputs stay inside the declared parameter types (argv: list of str, object: dict with str keys or Namespace, text/path: str, env: str->str)",
-        "container nesting depth <= 40 (RecursionError from sheer depth is not hunted; a self-referential alias is a finite input and is)",
+        "container nesting depth <= 60 (RecursionError from sheer depth is not hunted; a self-referential alias is a finite input and is)",
+        "static raise sets: attribute access / iteration on LOCAL values and len/set/iter are taken not to fail; failure tables of library callables are "
+        "hand-written (self-tested each run); a guard excuse trusts that the named test rules the class out",
         "JSONARGPARSE_DEBUG unset, no error_handler, no logger",
         "histories: a parser is re-used after REJECTED parse_args calls; re-use after a call that printed help / config / completion and exited 0 is "
         "only judged by the channel of the later call (ArgumentError / exit 2), not by 'returns like a fresh parser'",
         "the region / call structure of Core/ExcFlow.lean is hand-written; it is validated by the dynamic stage attribution, not proved",
     ]
-    ctx.lean_build(extractors=["excflow"])
+    ctx.lean_build(extractors=["excflow", "excflow_raises"])
 
-    stats = {"outcomes": {}, "known": {}, "violation_sigs": {}, "stage_class": {}, "undesigned": {}, "roots": {}}
+    stats = {"outcomes": {}, "known": {}, "violation_sigs": {}, "stage_class": {}, "undesigned": {}, "roots": {}, "leaf_obs": {},
+             "leaf_keys": leaf_keys()}
+    TRACER.install()
     cases = []
     for c in corpus_cases(ctx):
         cases.append(("corpus", subst_mod(c)))
-    n_corpus = len(cases)
+    for c in gen_probes(ctx.rng, ctx.thorough, 3 if ctx.search_boost > 1 else 1):
+        cases.append(("probe", c))
+    n_corpus = len(cases)   # corpus + probes: always run completely
     n_random = ctx.budget(6000, 90000) * (3 if ctx.search_boost > 1 else 1)
     for _ in range(n_random):
         cases.append(("generated", gen_case(ctx.rng, ctx.thorough)))
 
-    budget_s = ctx.budget(55, 700) * (2 if ctx.search_boost > 1 else 1)
+    budget_s = ctx.budget(50, 600) * (2 if ctx.search_boost > 1 else 1)
     t_fuzz = ctx.elapsed()
     results = []
     for idx, (origin, case) in enumerate(cases):
@@ -1403,7 +1627,15 @@ def run(ctx: Ctx):
         ctx.hist("mode", case["mode"])
         ctx.hist("exit_on_error", case["eoe"])
         ctx.hist("history", len(case.get("history") or []))
+        if origin == "probe":
+            ctx.hist("probe_channel", case["channel"])
+            ctx.hist("probe_value", case["probe"][1])
+            ctx.hist("probe_wrap", case["probe"][2])
         verdict = judge(ctx, case, res, origin, stats)
+        for cname, mro, fn_name, fname in res.get("chain") or []:
+            k = (fname, fn_name)
+            if k in stats["leaf_keys"]:
+                stats["leaf_obs"].setdefault(k, {}).setdefault(TRACER.cls_name_from_mro(mro), case)
         root = res.get("root")
         ev = res.get("events") or []
         for e in ev:
@@ -1420,6 +1652,7 @@ def run(ctx: Ctx):
 
     # ---------------------------------------------------------------- dynamic validation against the model
     validate_model(ctx, results, stats)
+    validate_static(ctx, stats)
 
     # ---------------------------------------------------------------- fixed and open findings
     ctx.replay_fixed_demos()
@@ -1511,6 +1744,64 @@ def validate_model(ctx: Ctx, results, stats):
     ctx.extra["correspondence_mismatches"] = len(mismatches)
     # an undesigned (region, class) whose outcome conforms is a gap of `designed` (model too narrow), reported in the
     # evidence, never an alarm by itself; an undesigned one that escapes is exactly what the oracle above reports
+
+
+def leaf_keys():
+    """(file, function name) of the leaf functions of harness/extractors/excflow_raises.py -> names of the leaves that share it"""
+    from ..extractors.excflow_raises import LEAVES
+
+    out = {}
+    for spec in LEAVES:
+        out.setdefault((spec["file"], spec["qual"].split(".")[-1]), []).append(spec["name"])
+    out.setdefault(("typing.py", "deserializer"), []).append("registered:*")
+    return out
+
+
+def validate_static(ctx: Ctx, stats):
+    """the static raise table (Gen/ExcFlowRaises) against the runs: every class that was SEEN leaving a leaf function (the innermost
+    frame of an exception in the cause chain of a failure) must be one the static over-approximation lists for that function (or a
+    subclass); when the proof obligation C03_static_raises failed, the (leaf, class, origin) triples are reported as search hints"""
+    try:
+        ans = ctx.driver("ExcFlow", [{"q": "staticLeaves"}], timeout=600)[0]
+    except Exception as ex:  # noqa: BLE001 - no model, no static validation
+        if ctx.lean_ok:
+            ctx.tie_break("ExcFlow driver not runnable (staticLeaves)", str(ex)[:400])
+        return
+    if ans.get("uncovered"):
+        ctx.extra["static_uncovered_hints"] = ans["uncovered"]
+        ctx.tie_break("C03_static_raises: a class can escape a leaf function that its region is not designed to raise and no guard excuses",
+                      jdump(ans["uncovered"])[:1500])
+    static = {}
+    for l in ans["leaves"]:
+        static[l["name"]] = set(l["classes"])
+    ctx.extra["static_leaves"] = {l["name"]: {"region": l["region"], "classes": l["classes"], "origins": l["origins"], "covered": l["covered"],
+                                              "excused": l["excused"]} for l in ans["leaves"]}
+    import builtins
+
+    def is_sub(c, d):
+        cc, dd = getattr(builtins, c, None), getattr(builtins, d, None)
+        uni = {v: k for k, v in TRACER.universe.items()}
+        cc, dd = cc or uni.get(c), dd or uni.get(d)
+        return cc is not None and dd is not None and issubclass(cc, dd)
+
+    seen = {}
+    for (fname, fn_name), per_cls in stats["leaf_obs"].items():
+        names = stats["leaf_keys"][(fname, fn_name)]
+        allowed = set()
+        for n in names:
+            if n == "registered:*":
+                for k, v in static.items():
+                    if k.startswith("registered:"):
+                        allowed |= v
+                allowed.add("ValueError")  # the conversion `raise ex2 from ex` itself
+            else:
+                allowed |= static.get(n, set())
+        for cls, case in per_cls.items():
+            seen["%s:%s:%s" % (fname, fn_name, cls)] = True
+            if not any(is_sub(cls, a) for a in allowed):
+                ctx.tie_break("static raise table is not an over-approximation: %s was seen leaving %s (%s), listed: %s"
+                              % (cls, fn_name, fname, sorted(allowed)), jdump(case)[:1200])
+    ctx.extra["static_leaf_classes_observed"] = sorted(seen)
 
 
 def _cls_name_from_mro(self, names):
